@@ -753,9 +753,16 @@ def _valid_modname(s):
     return isinstance(s, str) and s != "" and all(_valid_ident(x) for x in s.split("."))
 
 
-def finalize(state):
-    """Make the program stoppable and append STOP. Returns the closing instrs."""
+def finalize(state, single_result=False):
+    """Make the program stoppable and append STOP. Returns the closing instrs.
+    single_result: pop everything above the bottom-most item first, so that exactly one
+    object is on the VM stack at STOP."""
     closing = []
+    if single_result:
+        while len(state.st) > 1:
+            ins = ("POP", None)
+            state.apply(ins)
+            closing.append(ins)
     while state.st and state.st[-1].k == "mark":
         ins = ("POP", None)
         state.apply(ins)
@@ -842,7 +849,7 @@ def simulate(profile, instrs):
 # Hypothesis driver
 
 
-def programs(profile, max_len=14, min_len=1, framing=True):
+def programs(profile, max_len=14, min_len=1, framing=True, single_result=False):
     from hypothesis import strategies as hs
 
     @hs.composite
@@ -865,7 +872,7 @@ def programs(profile, max_len=14, min_len=1, framing=True):
                     s.apply(("STACK_GLOBAL", None))
                 continue
             s.apply((op, arg))
-        finalize(s)
+        finalize(s, single_result)
         proto = None
         frame = False
         if framing:
